@@ -44,8 +44,6 @@ Definition exc_id (j : nat) (it : item) : Z := (Z.of_nat j + 1) * 1000 + fst it.
 Definition has_throw (c : cfg) : bool :=                       (* some stage, or the generator, can throw *)
   (0 <=? c_gthrow c) || existsb (fun sc => match sc_throws sc with [] => false | _ => true end) (c_stages c).
 Definition leak_domain (c : cfg) : bool := has_throw c.
-Definition hang_domain (c : cfg) : bool := has_throw c && (1 <? ninst c).            (* ... and >= 2 generator instances *)
-Definition escape_domain (c : cfg) : bool := has_throw c && (c_plf c <? ninst c - 1). (* ... and an instance can run inline in execute() *)
 
 (* the value with which item [tag] arrives at stage j *)
 Fixpoint chain (j : nat) (tag : Z) : Z := match j with O => tag | S m => sval m (chain m tag) end.
@@ -57,9 +55,9 @@ Inductive wpc := WOLoad | WExc | WDDeq | WDDec | WDeq | WSub | WAdd | WExc2 | WD
 Inductive mpc := MStart | MExec (g : Z) | MCwLoad | MCwFutex (cur : Z) | MBlocked | MWoken
                | MWait (j : nat) (pc : wpc) (held : item)           (* wait() of stage j (only the caller runs it) *)
                | MCtsWait (dtor : bool) | MCtsHelp (dtor : bool).   (* ConcurrentTaskSet::wait: the load / its inner loop *)
-Inductive gpc := GExc | GCall | GSched (it : item) (pc : spc) | GDone | GNStore | GNWake.
+Inductive gpc := GExc | GCall | GSched (it : item) (pc : spc) | GCatchCas (e : Z) | GCancel | GDone | GNStore | GNWake.
 Inductive tpc := TUExc | TBody | TCbDeq | TCbAdd | TNext | TSched (pc : spc) | TRGuard | TOGuard | TCatchCas (e : Z) | TCancel.
-Inductive ppc := PRun | PFin | PCatchCas (e : Z) | PCancel.
+Inductive ppc := PRun | PFin | PSkipGen | PEnd | PCatchCas (e : Z) | PCancel.
 
 (* schedule() and wait() have exactly one kind of caller each, so their program counters are part of the caller's frame:
    GSched = the generator instance inside pipeNext_.execute(item) -> schedule of stage 0; TSched = a stage task inside
@@ -85,22 +83,24 @@ Record event := EV { e_tid : Z; e_kind : Z; e_j : Z; e_tag : Z; e_val : Z }.
 
 Record shared := SH {
   gates : list gate; bag : list (nat * ptask); bprods : list nat; pout : Z;
-  exc : option Z; canceled : bool; compl : Z; gnext : Z; done : bool; result : option Z; log : list event }.
+  exc : option Z; canceled : bool; compl : Z; gnext : Z; done : bool; result : option Z; log : list event;
+  gx : Z  (* tasks whose wrapper has decremented outstandingTaskCount_ while executeNext has not yet decremented workRemaining_ *) }.
 Record state := ST { sh : shared; threads : list thread }.
 
 Definition dflt_gate : gate := GT 0 0 [] [].
 Definition gate_at (s : shared) (j : nat) : gate := nth j (gates s) dflt_gate.
 
-Definition w_gates (s : shared) (g : list gate) := SH g (bag s) (bprods s) (pout s) (exc s) (canceled s) (compl s) (gnext s) (done s) (result s) (log s).
-Definition w_bag (s : shared) (b : list (nat * ptask)) (p : list nat) := SH (gates s) b p (pout s) (exc s) (canceled s) (compl s) (gnext s) (done s) (result s) (log s).
-Definition w_pout (s : shared) (x : Z) := SH (gates s) (bag s) (bprods s) x (exc s) (canceled s) (compl s) (gnext s) (done s) (result s) (log s).
-Definition w_exc (s : shared) (x : option Z) := SH (gates s) (bag s) (bprods s) (pout s) x (canceled s) (compl s) (gnext s) (done s) (result s) (log s).
-Definition w_canceled (s : shared) (x : bool) := SH (gates s) (bag s) (bprods s) (pout s) (exc s) x (compl s) (gnext s) (done s) (result s) (log s).
-Definition w_compl (s : shared) (x : Z) := SH (gates s) (bag s) (bprods s) (pout s) (exc s) (canceled s) x (gnext s) (done s) (result s) (log s).
-Definition w_gnext (s : shared) (x : Z) := SH (gates s) (bag s) (bprods s) (pout s) (exc s) (canceled s) (compl s) x (done s) (result s) (log s).
-Definition w_done (s : shared) (x : bool) := SH (gates s) (bag s) (bprods s) (pout s) (exc s) (canceled s) (compl s) (gnext s) x (result s) (log s).
-Definition w_result (s : shared) (x : option Z) := SH (gates s) (bag s) (bprods s) (pout s) (exc s) (canceled s) (compl s) (gnext s) (done s) x (log s).
-Definition add_log (s : shared) (e : event) := SH (gates s) (bag s) (bprods s) (pout s) (exc s) (canceled s) (compl s) (gnext s) (done s) (result s) (e :: log s).
+Definition w_gates (s : shared) (g : list gate) := SH g (bag s) (bprods s) (pout s) (exc s) (canceled s) (compl s) (gnext s) (done s) (result s) (log s) (gx s).
+Definition w_bag (s : shared) (b : list (nat * ptask)) (p : list nat) := SH (gates s) b p (pout s) (exc s) (canceled s) (compl s) (gnext s) (done s) (result s) (log s) (gx s).
+Definition w_pout (s : shared) (x : Z) := SH (gates s) (bag s) (bprods s) x (exc s) (canceled s) (compl s) (gnext s) (done s) (result s) (log s) (gx s).
+Definition w_exc (s : shared) (x : option Z) := SH (gates s) (bag s) (bprods s) (pout s) x (canceled s) (compl s) (gnext s) (done s) (result s) (log s) (gx s).
+Definition w_canceled (s : shared) (x : bool) := SH (gates s) (bag s) (bprods s) (pout s) (exc s) x (compl s) (gnext s) (done s) (result s) (log s) (gx s).
+Definition w_compl (s : shared) (x : Z) := SH (gates s) (bag s) (bprods s) (pout s) (exc s) (canceled s) x (gnext s) (done s) (result s) (log s) (gx s).
+Definition w_gnext (s : shared) (x : Z) := SH (gates s) (bag s) (bprods s) (pout s) (exc s) (canceled s) (compl s) x (done s) (result s) (log s) (gx s).
+Definition w_done (s : shared) (x : bool) := SH (gates s) (bag s) (bprods s) (pout s) (exc s) (canceled s) (compl s) (gnext s) x (result s) (log s) (gx s).
+Definition w_result (s : shared) (x : option Z) := SH (gates s) (bag s) (bprods s) (pout s) (exc s) (canceled s) (compl s) (gnext s) (done s) x (log s) (gx s).
+Definition w_gx (s : shared) (x : Z) := SH (gates s) (bag s) (bprods s) (pout s) (exc s) (canceled s) (compl s) (gnext s) (done s) (result s) (log s) x.
+Definition add_log (s : shared) (e : event) := SH (gates s) (bag s) (bprods s) (pout s) (exc s) (canceled s) (compl s) (gnext s) (done s) (result s) (e :: log s) (gx s).
 
 Fixpoint upd_nth {A} (n : nat) (f : A -> A) (l : list A) : list A :=
   match l, n with
@@ -182,7 +182,7 @@ Definition inline_decision (c : cfg) (s : shared) (th : thread) (force : bool) (
     match ch with [] => (false, []) | x :: r => (Z.odd x && can_inline th, r) end
   else
     let thr := Z.max (c_npool c + 1) ((4 * c_npool c) / 2) in
-    if (thr <? pout s) && negb (canceled s) && can_inline th then (true, ch)
+    if (thr <? pout s - gx s) && negb (canceled s) && can_inline th then (true, ch)
     else if (is_pool th && ((3 * c_npool c) / 2 <? pout s)) || (c_plf c <? pout s) then (can_inline th && negb (canceled s), ch)
     else (false, ch).
 
@@ -325,9 +325,15 @@ Section Frames.
     let goto p := w_stack th (FPool tk p :: r) in
     match pc with
     | PRun =>
-        if canceled s then ok (add_log s (skip_event tk)) (goto PFin) ch silent
+        if canceled s then ok (add_log s (skip_event tk)) (goto (match tk with TGen => PSkipGen | _ => PFin end)) ch silent
         else let '(s1, fr) := body_frame t s tk in ok s1 (w_stack th (fr :: FPool tk PFin :: r)) ch silent
     | PFin => ok (w_pout s (pout s - 1)) (w_stack th r) ch silent
+    (* a skipped generator task: the wrapper returns (outstandingTaskCount_ decremented), then the functor is destroyed and the
+       CompletionGuard it owns by value counts the latch down; executeNext decrements workRemaining_ last *)
+    | PSkipGen => match tk with
+                  | TGen => ok (w_gx s (gx s + 1)) (w_stack th (FGen GDone :: FPool tk PEnd :: r)) ch silent
+                  | _ => None end
+    | PEnd => ok (w_gx (w_pout s (pout s - 1)) (gx s - 1)) (w_stack th r) ch silent
     | PCatchCas e => let '(s1, won) := try_set t s e in ok s1 (goto (if won then PCancel else PFin)) ch 6
     | PCancel => ok (w_canceled s true) (goto PFin) ch 7
     end.
@@ -362,10 +368,13 @@ Section Frames.
     | GCall =>
         let k := gnext s in
         let s1 := w_gnext s (k + 1) in
-        if k =? c_gthrow c then ok (add_log s1 (ev t 5 (-1) (k, 0))) (w_unw (goto GDone) (Some k)) ch 9
+        if k =? c_gthrow c then ok (add_log s1 (ev t 5 (-1) (k, 0))) (goto (GCatchCas k)) ch 9
         else if c_nitems c <=? k then ok (add_log s1 (ev t 6 (-1) (k, 0))) (goto GDone) ch 9
         else ok (add_log s1 (ev t 4 (-1) (k, k))) (goto (GSched (k, k) SOinc)) ch 9
     | GSched it pc => step_sched s th 0 it pc (fun p => FGen (GSched it p)) (FGen GExc) r ch
+    (* the functor's own try/catch: LimitGatedScheduler::captureCurrentException = trySetCurrentException *)
+    | GCatchCas e => let '(s1, won) := try_set t s e in ok s1 (goto (if won then GCancel else GDone)) ch 6
+    | GCancel => ok (w_canceled s true) (goto GDone) ch 7
     | GDone =>
         let s1 := w_compl s (compl s - 1) in
         if compl s =? 1 then ok s1 (goto GNStore) ch 10 else ok s1 (w_stack th r) ch 10
@@ -430,17 +439,13 @@ Section Frames.
     | FInline => ok s (w_depth (w_stack th r) (depth th - 1)) ch silent
     | FTask true j it TOGuard a => ok s (w_unw (w_stack th (FTask true j it (TCatchCas e) a :: r)) None) ch silent
     | FTask false j it TOGuard a => step_task s th false j it TOGuard a r ch
-    | FGen GExc => ok s (w_stack th (FGen GDone :: r)) ch silent
-    | FGen GDone => step_gen s th GDone r ch
-    | FGen GNStore => step_gen s th GNStore r ch
-    | FGen GNWake => step_gen s th GNWake r ch
+    | FGen GExc => ok s (w_unw (w_stack th (FGen (GCatchCas e) :: r)) None) ch silent
     | FPool tk PFin => ok s (w_unw (w_stack th (FPool tk (PCatchCas e) :: r)) None) ch silent
     | _ =>
-        (* FMain (MExec _): a generator instance ran inline inside execute() and the exception leaves pipeline() through
-           execute(): wait() is skipped and the Pipe objects are destroyed while queued tasks may still reference them (undefined
-           behaviour in the real code).  The model stops here; such states are characterised by [escaping] below.
-           Elsewhere FMain / FWorker only call wrapped tasks, which catch everything; the other program points never have a
-           throwing callee above them. *)
+        (* FMain / FWorker only call wrapped tasks and generator functors, which catch everything (since /repo f2764c3 the generator
+           functor records its exception itself; before, an instance run inline inside execute() let it escape: [escaping] below
+           characterises that state, which the model would stop at); the other program points never have a throwing callee
+           above them. *)
         None
     end.
 
@@ -458,7 +463,7 @@ Definition frame_kind (f : frame) : Z :=
   | FMain (MExec _) | FMain (MCtsHelp _) => 2
   | FMain _ => 1
   | FTask _ _ _ TNext _ => 2
-  | FPool _ PRun | FPool _ PFin => 2
+  | FPool _ PRun | FPool _ PFin | FPool _ PSkipGen | FPool _ PEnd => 2
   | FInline => 2
   | _ => 1
   end.
@@ -470,7 +475,6 @@ Definition th_kind (th : thread) : Z :=
       | None => frame_kind f
       | Some _ => match f with
                   | FTask false _ _ TOGuard _ => 1
-                  | FGen GDone | FGen GNStore | FGen GNWake => 1
                   | _ => 2 end
       end
   end.
@@ -525,7 +529,7 @@ Definition finished (s : state) : bool := forallb (fun th => th_kind th =? 0) (t
 
 Definition init_gate (sc : stage_cfg) : gate := GT (lim_of sc) 0 [] [].
 Definition init (c : cfg) : state :=
-  ST (SH (map init_gate (c_stages c)) [] [] 0 None false (ninst c) 0 false None [])
+  ST (SH (map init_gate (c_stages c)) [] [] 0 None false (ninst c) 0 false None [] 0)
      (TH [FMain MStart] 0 None false :: map (fun w => TH [FWorker false] (snd w) None (fst w)) (c_workers c)).
 
 Definition run_pipe (fuel : nat) (c : cfg) (sched : list Z) := run (step c) cands finished fuel (init c) sched [].
